@@ -381,6 +381,23 @@ fn mutate(dec: &str, m: &str, arg: &str, base: &[u8], rng: &mut rand::rngs::StdR
                 serde_json::to_vec(&v).unwrap()
             }
         }
+        "unicode" => {
+            // characters whose case mapping changes their UTF-8 length, characters IDNA maps to a dot or to nothing,
+            // combining marks, bidi controls, NUL - spliced into the text at a random character boundary, several times
+            const SPECIAL: &[&str] = &["\u{212A}", "\u{0130}", "\u{1E9E}", "\u{00DF}", "\u{FB00}", "\u{0149}", "\u{3002}", "\u{FF0E}", "\u{FF61}",
+                                        "\u{00AD}", "\u{200D}", "\u{0301}", "\u{202E}", "\u{0}", "\u{10FFFF}", "\u{FFFD}", "\u{1F600}", "\u{0131}", "\u{03A3}",
+                                        "\u{1F88}", "\u{2126}", "A", "Z"];
+            let mut t = String::from_utf8_lossy(&b).into_owned();
+            for _ in 0..rng.gen_range(1..4) {
+                let cuts: Vec<usize> = t.char_indices().map(|(i, _)| i).chain(std::iter::once(t.len())).collect();
+                let at = *cuts.choose(rng).unwrap();
+                t.insert_str(at, SPECIAL.choose(rng).unwrap());
+            }
+            if rng.gen_bool(0.3) {
+                t = t.to_uppercase();
+            }
+            t.into_bytes()
+        }
         "manyentries" => b,     // grown in the child (expand_many), the inputs file carries the valid encoding only
         "bigseq" => {
             // arg = "<present>:<declared>": a byte string or list member re-encoded as a definite-length array that
